@@ -24,7 +24,7 @@ FLOORS = {
                  'negate_judged': 40000, 'join_judged': 40000, 'this_to_var_judged': 50000,
                  'var_to_this_judged': 40000, 'inverse_judged': 40000, 'events_judged': 20000, 'slots_filled': 30},
 }
-BUDGET = {'quick': {'n': 10000, 'envs': 16}, 'thorough': {'n': 130000, 'envs': 24}}
+BUDGET = {'quick': {'n': 10000, 'envs': 16}, 'thorough': {'n': 300000, 'envs': 24}}
 TIMEOUT = {'quick': 900, 'thorough': 7200}
 
 
